@@ -11,6 +11,7 @@ def sig(ev):
 def run(ck):
     ck.tlc_mc("CollectorConcMC", "CollectorConcMC_thorough.cfg" if ck.thorough else "CollectorConcMC.cfg")
     ck.tlc_mc("CollectorConcMC", "CollectorConcMC_udp.cfg")
+    ck.tlc_mc("UdpClientsMC", "UdpClientsMC.cfg")      # the UDP per-source client hand-off (design level: the idle timeout cannot be fired in a real run)
     b = ck.go_build("c12", race=True)
     trace, summ = ck.run_driver(b, env_extra={"GORACE": "halt_on_error=0 exitcode=0"}, allow_rc=(0, 2), timeout=1500)
     vlib.append_monitor_events(trace, vlib.race_reports(summ["stderr_path"]))
